@@ -78,7 +78,7 @@ def run_case(case):
             got = []
             for w in A.get_accepted_words(n):
                 got.append(tuple(s.value for s in w))
-                if len(got) > 5000:
+                if len(got) > 5000 + 2 * len(exp):
                     failures.append(fail(sub, "too_many", n))
                     break
             if len(got) != len(set(got)):
